@@ -601,7 +601,9 @@ func (d *Dials[T]) EnableVerification(ctx context.Context) (*T, CfgSerial[T], er
 	} else if d.monCtl == nil {
 		cfg, tok := d.ViewVersion()
 		if vc, ok := any(cfg).(VerifiedConfig); ok {
-			return nil, CfgSerial[T]{}, vc.Verify()
+			if vfErr := vc.Verify(); vfErr != nil {
+				return nil, CfgSerial[T]{}, vfErr
+			}
 		}
 		return cfg, tok, nil
 	}
